@@ -31,12 +31,23 @@ claim('C07', 'Coq proof (nested induction over the value universe, uniqueness of
       'Kernel + vm_compute; SHA-1 and pickle outside the model (digests symbolic; dict keys with distinct digests is a premise); '
       'harness: value generator/realiser, recorder, interning.',
       'DESIGN.md sec. 3 C07')
-claim('C08', 'Coq refutation witness (vm_compute + inversion) + in-Coq classification of every observed collision + exhaustive bucketed pair search',
+claim('C08', 'Coq refutation witness + Coq proof that the length-delimited chunk stream is an injective prefix code (nested induction over the value universe) and that the real stream is its erasure + in-Coq classification of every observed collision + exhaustive bucketed pair search over structures and families of confusable invocations',
       'The injectivity statement is FALSE of the faithful model and of the code (Theorem C08_refuted; known finding D1, not repairable '
-      'without changing every identifier).  The check enumerates all invocations up to a node bound plus the pairs the property names, and '
-      'accepts a collision only if Coq evaluates: model stream equal AND delimited stream different; anything else is a violation.',
-      'Kernel + vm_compute; A1 (SHA-1 collision-free) for the search; the general injectivity of the delimited stream is not yet proved '
-      '(partial: classification is per observed pair).',
+      'without changing every identifier).  Proved around it (Props/C08.v), on the task-invocation universe wfb (no CustomHash/NoHash, '
+      'pickles distinct from the container markers, array branch agrees with the dtype, __jug_hash__ objects feed labelled fields): the '
+      'stream with one length chunk after each container marker is a prefix code and injective up to array layout '
+      '(C08_dstream_prefix_free, C08_dstream_injective; converse C08_equiv_same_stream); the stream the code really feeds is that code '
+      'with the length chunks erased (C08_stream_erases); hence two invocations can share an identifier ONLY if they disagree on '
+      'container extents (C08_partial; C08_partial_identifiers for the digests with items.sort(), C08_delimited_identifier_injective for '
+      'the delimited digests, under A1/A2).  The check hashes all invocations up to a node bound, families of confusable invocations '
+      '(one buffer through ~all plain / structured / sub-array / byte-order dtypes and shapes, tasklet chains to depth 3 incl. '
+      'return_tuple / iteratetask and their consumers, all six container kinds, NoHash / CustomHash wrappers - exempt by design) and '
+      'the pairs the property names, buckets them by identifier, and accepts a collision of two different invocations only if Coq '
+      'evaluates: model stream equal AND delimited stream different; anything else is a violation with the colliding pair as replay.',
+      'Kernel + vm_compute; A1 (SHA-1 injective) and A2 (concatenated chunk bytes uniquely decodable) are explicit premises of the '
+      'digest-level theorems and shown jointly satisfiable (C08_nonvacuous); the token-level theorems need neither.  The theorems speak of '
+      'values whose set/dict children are listed in digest order (how the check lists them; the sort-inclusive delimited sequence is not '
+      'modelled); membership of every realised value in wfb is sampled every run.  Full injectivity stays refuted (D1).',
       'DESIGN.md sec. 3 C08')
 
 claim('C06', 'Coq refinement proof (file/dict/redis bookkeeping refine a finite map for all operation sequences; framing round-trip under codec hypotheses) + differential evaluation of the model in coqc on operation sequences run on the real stores',
